@@ -7,7 +7,7 @@ from ._conn_texts import ASSUME, TRUSTED
 class Prop(ConnProp):
     id = "C02"
     lean_module = "MuduoVerif.Props.C02"
-    gen_engines = ConnProp.gen_engines + ["Pool", "Owner"]   # Owner: the multi-loop ownership protocol of TcpServer
+    gen_engines = ConnProp.gen_engines + ["Pool", "Owner", "SysSkel"]   # Owner: the multi-loop ownership protocol of TcpServer; SysSkel: ~Socket / sockets::close
     drivers = ConnProp.drivers + ["owner"]
     technique = ("Lean 4 invariant proof (life-cycle automaton accepted by every history of the TcpConnection model) + T1 "
                  "guard/hand-off extraction + differential run vs. the real TcpConnection over all close causes")
@@ -49,7 +49,10 @@ class Prop(ConnProp):
             "loops, <= 6 raw peers, schedules of iter/step per loop thread, send/FIN/RST, forceClose/shutdown/hold/drop from a "
             "foreign thread, server destroyed inside the base loop or after quit() with closes in flight): model == implementation "
             "trace (conn, event, loop thread) per step + independent oracle")
-    trusted_base = TRUSTED
+    trusted_base = TRUSTED + [
+        "vlib/gen/sysskel.py (clang-14 JSON AST -> Generated/SysSkel.lean: statement skeletons of every function of SocketsOps.cc, Socket.cc/.h, InetAddress.cc/.h, Endian.h, Poller.cc, poller/DefaultPoller.cc, the poller constructors/destructors, Channel::tie, createEventfd, createTimerfd; what it leaves out is listed in the generated header) and the reading Model/SysSkelDecl.lean of what the "
+        "models assume of each primitive (one system call, arguments passed through, result returned unchanged, failures only logged - or exactly the declared extra work); C02 depends on socket_dtor_closes_once (Socket::Socket, ~Socket, sockets::close); still trusted: the kernel's / glibc's behaviour behind each system call",
+    ]
     assumptions = ASSUME
     oracles = [conn_oracle.updown_oracle]
     profile = {"closes": True}
